@@ -376,6 +376,40 @@ def worker_end_to_end(cfg, tier):
     return obs
 
 
+def worker_init_inputs(cfg, tier):
+    """setting the delay through init_delays/params: BaseNode.init_inputs turns the requested delay into alpha, saturating at the bounds"""
+    import jax
+    import jax.numpy as jnp
+    from flax.core import FrozenDict
+    from rex.base import GraphState, TrainableDist
+    from vlib import cg, jx, smt
+    from vlib.fixtures import PParams, ProbeNode
+
+    dmin, dmax = cfg["min"], cfg["max"]
+
+    class Rcv(ProbeNode):
+        def init_delays(self, rng=None, graph_state=None):
+            return {"node2": graph_state.params[self.name].a}  # the trainable delay lives in the node's params
+
+    n2 = ProbeNode(name="node2", rate=20)
+    n1 = Rcv(name="node1", rate=10)
+    n1.connect(n2, window=2, blocking=False, delay_dist=TrainableDist.create(cfg["created_delay"], dmin, dmax), delay=float(dmin))
+    gs0 = GraphState(params=FrozenDict({"node1": PParams(a=jnp.float32(0.01))}))
+    it = jx.Interp()
+    tr = jx.Traced(lambda g_: n1.init_inputs(jax.random.PRNGKey(0), g_)["node2"], gs0)
+    flat = tr.sym_inputs(it, "p")
+    lo = Fraction(float(np.float32(dmin)))
+    hi = lo + Fraction(float(np.float32(float(dmax) - float(dmin))))
+
+    def goal(inp, out):
+        d = inp[0].params["node1"].a.item()
+        want = z3.If(d <= lo, 0, z3.If(d >= hi, 1, (d - lo) / (hi - lo)))
+        return z3.And(out.delay_dist.alpha.item() == want, *[x < 0 for x in out.seq.flat()])
+
+    return [cg.prove_with_replay("init_inputs: a delay requested through init_delays/params becomes alpha = clip((d-min)/(max-min), 0, 1); the window starts with default entries",
+                                 cfg, it, tr, flat, [], goal, "init-delays-alpha", "a trainable delay set through init_delays/params does not take effect (or does not saturate at the bounds)", grid=(-1, 1))]
+
+
 def worker_generated_min(cfg, tier):
     """graphs generated (and augmented) for a trainable connection record the MINIMAL delay, whatever delay the connection was created with"""
     import jax
@@ -521,6 +555,9 @@ def run(rep):
                  dict(W=1, rate_a=20, rate_b=10, min=0.0125, max=0.0625, created_delay=0.05, ts_max=0.3, phase_b=0.0625)]
     rep.configs = cfgs + acfg + ecfg
     obs += pmap("props.c10", "worker_generated_min", ecfg, rep.tier)
+    from rex.node import BaseNode
+    rep.encode(BaseNode.init_inputs, BaseNode.init_delays)
+    obs += pmap("props.c10", "worker_init_inputs", [dict(min=0.0, max=0.05, created_delay=0.04), dict(min=0.0125, max=0.0625, created_delay=0.05)], rep.tier)
     if rep.tier == "thorough":
         obs += pmap("props.c10", "worker_end_to_end", [dict(c, ts_max=0.15) for c in ecfg[:1]], rep.tier)
     rep.add_all(obs)
